@@ -751,4 +751,42 @@ def sequence_loader(facts):
     return out
 
 
-RULES = [R4c_pair_loaders, R1_token_accounts, R3_back_references, R4_loaders_and_unchecked, R5_pinocchio_superset, R5b_remaining_accounts]
+def R1b_instruction_args(run):
+    run.title("R1b", "an Accounts struct's `#[instruction(..)]` names the first arguments of its instruction in the order and with the types the entry declares them "
+                     "(Anchor binds them by position: two same-typed names swapped evaluate every constraint with the other argument)")
+    import re as _re
+    facts = run.facts
+    n = 0
+    by_struct = {}
+    for e in program.entries(facts):
+        by_struct.setdefault(e.ctx_struct, []).append(e)
+    for path, st in sorted(ACC.load(facts).items()):
+        attrs = [a for a in (facts.accounts[path].get("attrs") or []) if a.replace(" ", "").startswith("#[instruction(")]
+        if not attrs:
+            continue
+        body = " ".join(attrs[0].split())
+        body = body[body.index("(") + 1: body.rindex(")")]
+        declared = []
+        for item in ACC._split_items(body):
+            if ":" in item:
+                nm, ty = item.split(":", 1)
+                declared.append((nm.strip(), ty.replace(" ", "")))
+        for e in by_struct.get(path, []):
+            names = e.fn.param_names()[1:]
+            types = [e.fn.locals[i]["t"].replace(" ", "") for i in range(2, e.fn.argc + 1)]
+            n += 1
+            bad = []
+            for i, (nm, ty) in enumerate(declared):
+                if i >= len(names):
+                    bad.append("%s has no counterpart" % nm)
+                    continue
+                if names[i].lstrip("_") != nm.lstrip("_"):
+                    bad.append("position %d is `%s` in the attribute and `%s` in %s" % (i + 1, nm, names[i], e.name))
+                elif types[i].rsplit("::", 1)[-1] != ty.rsplit("::", 1)[-1]:
+                    bad.append("`%s` is %s in the attribute and %s in %s" % (nm, ty, types[i], e.name))
+            run.check("R1b", "instruction-args:%s@%s" % (st.name, e.name), not bad, "#[instruction(..)] of %s: %s" % (st.name, "; ".join(bad)), loc="%s:%s" % (facts.accounts[path].get("file"), facts.accounts[path].get("line")),
+                      detail="%d leading argument(s) by position: %s" % (len(declared), ", ".join(nm for nm, _ in declared)))
+    run.floor("R1b", "structs with #[instruction]", n, 14)
+
+
+RULES = [R1b_instruction_args, R4c_pair_loaders, R1_token_accounts, R3_back_references, R4_loaders_and_unchecked, R5_pinocchio_superset, R5b_remaining_accounts]
